@@ -12,6 +12,7 @@ CONSTANTS
  DevF13 = FALSE
  DevVerKey = FALSE
  DevDangEnd = FALSE
+ DevRepBeforePattern = FALSE
  DevLastOfName = FALSE
  DevNoAtomResname = FALSE
  DevOrderedPairs = FALSE
